@@ -34,6 +34,9 @@ type FuncPlan struct {
 	PostHook  string            `json:"post_hook,omitempty"`
 	ErrSites  []string          `json:"err_sites,omitempty"`
 	Judge     bool              `json:"judge"`
+	// OnlyListed restricts the comparison to the leaves below the listed items (kinds assign, slice,
+	// nestinit, keep); everything else in the destination is not judged.
+	OnlyListed bool `json:"only_listed,omitempty"`
 }
 
 // ScenPlan is the plan of one scenario.
@@ -686,6 +689,33 @@ func callOnce(job *Job, reg *Reg, fp *FuncPlan, fn reflect.Value, val string, se
 	for _, u := range unknown {
 		model.Delete(u)
 		after.Delete(u)
+	}
+	if fp.OnlyListed {
+		var keep []string
+		for _, e := range exps {
+			if !e.unknown && e.key != "" && e.item.Kind != "ignore" {
+				keep = append(keep, e.key)
+			}
+		}
+		filter := func(d Dump) {
+			for k := range d {
+				ok := false
+				for _, p := range keep {
+					if k == p || (strings.HasPrefix(k, p) && isBoundary(k[len(p)])) {
+						ok = true
+						break
+					}
+				}
+				if !ok {
+					delete(d, k)
+				}
+			}
+		}
+		filter(model)
+		filter(after)
+		if hs.postDst != nil {
+			filter(hs.postDst)
+		}
 	}
 	fresh := map[string]bool{}
 	target := after
